@@ -570,3 +570,310 @@ Example ex_run :
   /\ g_log cfg = [(0, OCommit 10 1 2 false); (2, OSetHead 11 3)]
   /\ c_done (g_clients cfg 1) = [(OCommit 10 1 3 false, RMergeNeeded)].
 Proof. vm_compute. repeat split. Qed.
+
+(* ------------------------------------------------------------------ *)
+(* 7. The executable statement of the property (Corr.oracle) holds on the model's own
+      observations of every sequential API-granularity history.                          *)
+From Dolt Require Import C20.Corr.
+
+(* the part of a step that concerns the stepping client, as a function of (root, log, client) *)
+Definition cstep (w : world) (c : cid) (t : refs * list (cid * op) * client) (lbl : label)
+  : refs * list (cid * op) * client :=
+  let '(g, l, cl) := t in
+  match lbl with
+  | SRebase =>
+    match c_pc cl with
+    | PCas _ _ => t
+    | _ => (g, l, {| c_todo := c_todo cl; c_pc := c_pc cl; c_first := c_first cl; c_view := g; c_done := c_done cl |})
+    end
+  | _ =>
+    match c_todo cl with
+    | [] => t
+    | o :: rest =>
+      match lbl, c_pc cl with
+      | SBegin, PIdle =>
+        (g, l, if precheck w o
+               then {| c_todo := c_todo cl; c_pc := PTry; c_first := 0; c_view := c_view cl; c_done := c_done cl |}
+               else finish cl o rest (c_view cl) RMergeNeeded)
+      | SAttempt, PTry =>
+        (g, l, match attempt w (c_first cl) (c_view cl) o with
+               | (Fail res, _) => finish cl o rest (c_view cl) (report o res)
+               | (Edit m', f) => {| c_todo := c_todo cl; c_pc := PCas (c_view cl) m'; c_first := f;
+                                     c_view := c_view cl; c_done := c_done cl |}
+               end)
+      | SCas, PCas seen new =>
+        if refs_eqb seen g
+        then (new, l ++ [(c, o)], finish cl o rest new ROk)
+        else (g, l, {| c_todo := c_todo cl; c_pc := PTry; c_first := c_first cl; c_view := g; c_done := c_done cl |})
+      | _, _ => t
+      end
+    end
+  end.
+
+Definition proj (cfg : config) (c : cid) := (g_refs cfg, g_log cfg, g_clients cfg c).
+
+Lemma step_char w cfg c lbl :
+  proj (step w cfg (c, lbl)) c = cstep w c (proj cfg c) lbl
+  /\ forall c', c' <> c -> g_clients (step w cfg (c, lbl)) c' = g_clients cfg c'.
+Proof.
+  unfold proj, cstep, step.
+  destruct lbl; destruct (c_todo (g_clients cfg c)) as [|o rest]; destruct (c_pc (g_clients cfg c)) as [| |seen new];
+    cbn [g_refs g_log g_clients]; rewrite ?upd_same; try (split; [reflexivity | intros c' Hc; try rewrite upd_other by exact Hc; reflexivity]).
+  destruct (refs_eqb seen (g_refs cfg)); cbn [g_refs g_log g_clients]; rewrite ?upd_same;
+    (split; [reflexivity | intros c' Hc; rewrite upd_other by exact Hc; reflexivity]).
+Qed.
+
+Lemma run_char w c lbls : forall cfg,
+  proj (run w (map (fun l => (c, l)) lbls) cfg) c = fold_left (cstep w c) lbls (proj cfg c)
+  /\ forall c', c' <> c -> g_clients (run w (map (fun l => (c, l)) lbls) cfg) c' = g_clients cfg c'.
+Proof.
+  induction lbls as [|l lbls IH]; intros cfg; [split; reflexivity|].
+  cbn [map run fold_left]. destruct (step_char w cfg c l) as [H1 H2].
+  destruct (IH (step w cfg (c, l))) as [I1 I2]. unfold run in *. split.
+  - rewrite I1, H1. reflexivity.
+  - intros c' Hc. rewrite I2 by exact Hc. apply H2. exact Hc.
+Qed.
+
+(* one API call run to completion by an idle client, as a function *)
+Definition call_fn (w : world) (g v : refs) (o : op) : result * refs * refs * bool :=
+  if negb (precheck w o) then (RMergeNeeded, g, v, false)
+  else match attempt w 0 v o with
+       | (Fail res, _) => (report o res, g, v, false)
+       | (Edit m1, f1) =>
+         if refs_eqb v g then (ROk, m1, m1, true)
+         else match attempt w f1 g o with
+              | (Fail res, _) => (report o res, g, g, false)
+              | (Edit m2, _) => (ROk, m2, m2, true)
+              end
+       end.
+
+Definition call_labels : list label := [SBegin; SAttempt; SCas; SAttempt; SCas; SAttempt; SCas].
+
+Lemma idle_noop w c g l cl lbl :
+  c_pc cl = PIdle -> lbl = SAttempt \/ lbl = SCas -> cstep w c (g, l, cl) lbl = (g, l, cl).
+Proof.
+  intros Hp [->| ->]; cbn [cstep]; destruct (c_todo cl); rewrite ?Hp; reflexivity.
+Qed.
+
+Definition mkc (t : list op) (p : pc) (f : addr) (v : refs) (d : list (op * result)) : client :=
+  {| c_todo := t; c_pc := p; c_first := f; c_view := v; c_done := d |}.
+
+Lemma cstep_begin w c g l o rest f v d :
+  cstep w c (g, l, mkc (o :: rest) PIdle f v d) SBegin
+  = (g, l, if precheck w o then mkc (o :: rest) PTry 0 v d else mkc rest PIdle 0 v (d ++ [(o, RMergeNeeded)])).
+Proof. reflexivity. Qed.
+
+Lemma cstep_attempt w c g l o rest f v d :
+  cstep w c (g, l, mkc (o :: rest) PTry f v d) SAttempt
+  = (g, l, match attempt w f v o with
+           | (Fail res, _) => mkc rest PIdle 0 v (d ++ [(o, report o res)])
+           | (Edit m', f') => mkc (o :: rest) (PCas v m') f' v d
+           end).
+Proof. reflexivity. Qed.
+
+Lemma cstep_cas w c g l o rest f v d seen new :
+  cstep w c (g, l, mkc (o :: rest) (PCas seen new) f v d) SCas
+  = if refs_eqb seen g then (new, l ++ [(c, o)], mkc rest PIdle 0 new (d ++ [(o, ROk)]))
+    else (g, l, mkc (o :: rest) PTry f g d).
+Proof. reflexivity. Qed.
+
+Definition stage (w : world) (c : cid) (t : refs * list (cid * op) * client) :=
+  cstep w c (cstep w c t SAttempt) SCas.
+
+Lemma stage_idle w c g l t f v d : stage w c (g, l, mkc t PIdle f v d) = (g, l, mkc t PIdle f v d).
+Proof. unfold stage. rewrite !idle_noop by auto. reflexivity. Qed.
+
+Lemma call_char w c g l o rest f v d :
+  fold_left (cstep w c) call_labels (g, l, mkc (o :: rest) PIdle f v d)
+  = let '(r, g', v', changed) := call_fn w g v o in
+    (g', (if changed then l ++ [(c, o)] else l), mkc rest PIdle 0 v' (d ++ [(o, r)])).
+Proof.
+  unfold call_fn.
+  change (fold_left (cstep w c) call_labels (g, l, mkc (o :: rest) PIdle f v d))
+    with (stage w c (stage w c (stage w c (cstep w c (g, l, mkc (o :: rest) PIdle f v d) SBegin)))).
+  rewrite cstep_begin.
+  destruct (precheck w o) eqn:Hpre; cbn [negb].
+  2:{ rewrite !stage_idle. reflexivity. }
+  unfold stage at 3. rewrite cstep_attempt.
+  destruct (attempt w 0 v o) as [[res|m1] f1] eqn:A1.
+  { rewrite idle_noop by auto. rewrite !stage_idle. reflexivity. }
+  rewrite cstep_cas.
+  destruct (refs_eqb v g) eqn:E1.
+  { rewrite !stage_idle. reflexivity. }
+  unfold stage at 2. rewrite cstep_attempt.
+  destruct (attempt w f1 g o) as [[res|m2] f2] eqn:A2.
+  { rewrite idle_noop by auto. rewrite stage_idle. reflexivity. }
+  rewrite cstep_cas, refs_eqb_refl. rewrite stage_idle. reflexivity.
+Qed.
+
+Lemma result_eqb_eq a b : result_eqb a b = true <-> a = b.
+Proof. destruct a, b; cbn; split; intros H; try reflexivity; try discriminate. Qed.
+
+Lemma result_eqb_neq a b : a <> b -> result_eqb a b = false.
+Proof. intros H. destruct (result_eqb a b) eqn:E; [apply result_eqb_eq in E; contradiction | reflexivity]. Qed.
+
+(* a reported success without effect (fast-forward to the head already there) is never a
+   success with effect in another state *)
+Lemma reported_ok_never_applies w v o g0 :
+  guard w v o = g0 -> g0 <> ROk -> report o g0 = ROk -> forall m, guard w m o <> ROk.
+Proof.
+  intros Hg Hne Hr m. destruct o; try (destruct g0; cbn in Hr; congruence).
+  cbn [guard] in *.
+  destruct ((exp =? 0) || reach (world_fuel w) w exp new); cbn [negb] in *; [|subst g0; discriminate].
+  destruct (negb (exp =? 0) && (exp =? new)) eqn:E.
+  - destruct (get m r =? exp); cbn [negb]; discriminate.
+  - destruct (get v r =? exp); cbn [negb] in Hg; subst g0; cbn in Hr; try discriminate. contradiction.
+Qed.
+
+Lemma answered_in_intro w states v o g0 :
+  In v states -> guard w v o = g0 -> g0 <> ROk -> answered_in w states o (report o g0) = true.
+Proof.
+  intros Hin Hg Hne. unfold answered_in. apply existsb_exists. exists v. split; [exact Hin|].
+  cbn zeta. rewrite Hg. rewrite (result_eqb_neq g0 ROk Hne). cbn [negb andb].
+  apply result_eqb_eq. reflexivity.
+Qed.
+
+Lemma delete_retry_merge w v g r ws m1 f1 f2 :
+  attempt w 0 v (ODelete r ws) = (Edit m1, f1) ->
+  attempt w f1 g (ODelete r ws) = (Fail RMergeNeeded, f2) ->
+  get v r <> get g r.
+Proof.
+  cbn [attempt]. intros A1 A2.
+  assert (Hf1 : f1 = get v r).
+  { destruct (get v r =? 0) eqn:E0.
+    - apply N.eqb_eq in E0. rewrite E0 in A1. cbn [negb andb N.eqb] in A1.
+      dmatch A1; try discriminate. inversion A1. symmetry. exact E0.
+    - cbn [negb andb N.eqb] in A1. rewrite N.eqb_refl in A1. cbn [negb] in A1.
+      dmatch A1; try discriminate. inversion A1. reflexivity. }
+  subst f1. intros Heq. rewrite Heq in A2.
+  match type of A2 with context [if ?b then get g r else get g r] => destruct b end;
+    rewrite N.eqb_refl in A2; cbn [negb] in A2;
+    dmatch A2; try discriminate; inversion A2; eapply delete_check_not_merge; eauto.
+Qed.
+
+Definition seq_explained (w : world) (g : refs) (hist : list refs) (o : op) (r : result) : bool :=
+  answered_in w (g :: hist) o r
+  || (is_delete o && result_eqb r RMergeNeeded
+      && existsb (fun a => negb (get a (op_name o) =? get g (op_name o))) hist).
+
+Lemma call_fn_cases w g v o hist :
+  In v (g :: hist) ->
+  let '(r, g', v', ch) := call_fn w g v o in
+  (result_eqb r ROk && result_eqb (guard w g o) ROk = true /\ g' = effect g o /\ v' = g')
+  \/ (result_eqb r ROk && result_eqb (guard w g o) ROk = false /\ g' = g /\ In v' (g :: hist)
+      /\ seq_explained w g hist o r = true).
+Proof.
+  intros Hv. unfold call_fn.
+  assert (Hnoeff : forall st g0, In st (g :: hist) -> guard w st o = g0 -> g0 <> ROk ->
+            result_eqb (report o g0) ROk && result_eqb (guard w g o) ROk = false
+            /\ seq_explained w g hist o (report o g0) = true).
+  { intros st g0 Hin Hg Hne. split.
+    - destruct (result_eqb (report o g0) ROk) eqn:E; [|reflexivity].
+      apply result_eqb_eq in E. cbn [andb]. apply result_eqb_neq.
+      eapply reported_ok_never_applies; eauto.
+    - unfold seq_explained. rewrite (answered_in_intro w (g :: hist) st o g0 Hin Hg Hne). reflexivity. }
+  destruct (precheck w o) eqn:Hpre; cbn [negb].
+  2:{ right. pose proof (precheck_false_guard w g o Hpre) as Hg.
+      destruct (Hnoeff g RMergeNeeded (or_introl eq_refl) Hg ltac:(discriminate)) as [H1 H2].
+      rewrite report_merge in H1, H2. split; [exact H1 | split; [reflexivity | split; [exact Hv | exact H2]]]. }
+  destruct (attempt w 0 v o) as [[res|m1] f1] eqn:A1.
+  { right. destruct (attempt_fail _ _ _ _ _ _ Hpre A1) as [[Hg Hne]|[Hd Hr]].
+    - destruct (Hnoeff v res Hv Hg Hne) as [H1 H2]. split; [exact H1 | split; [reflexivity | split; [exact Hv | exact H2]]].
+    - exfalso. destruct o; try discriminate. subst res. eapply attempt_delete_first0; eauto. }
+  destruct (refs_eqb v g) eqn:E1.
+  { left. apply refs_eqb_eq in E1. subst v.
+    destruct (attempt_edit _ _ _ _ _ _ Hpre A1) as [Hg He]. rewrite Hg. cbn. auto. }
+  destruct (attempt w f1 g o) as [[res|m2] f2] eqn:A2.
+  - right. destruct (attempt_fail _ _ _ _ _ _ Hpre A2) as [[Hg Hne]|[Hd Hr]].
+    + destruct (Hnoeff g res (or_introl eq_refl) Hg Hne) as [H1 H2].
+      split; [exact H1 | split; [reflexivity | split; [left; reflexivity | exact H2]]].
+    + destruct o; try discriminate. subst res. cbn [report].
+      split; [reflexivity | split; [reflexivity | split; [left; reflexivity|]]].
+      unfold seq_explained. cbn [is_delete op_name result_eqb andb].
+      assert (Hne : get v r <> get g r) by (eapply delete_retry_merge; eauto).
+      assert (Hin : In v hist).
+      { destruct Hv as [Hv|Hv]; [|exact Hv]. subst v. rewrite refs_eqb_refl in E1. discriminate. }
+      apply orb_true_iff. right. apply existsb_exists. exists v. split; [exact Hin|].
+      apply negb_true_iff. apply N.eqb_neq. exact Hne.
+  - left. destruct (attempt_edit _ _ _ _ _ _ Hpre A2) as [Hg He]. rewrite Hg. cbn. auto.
+Qed.
+
+Definition J (acts : list action) (cfg : config) (m : refs) (hist : list refs) : Prop :=
+  g_refs cfg = m
+  /\ forall c, c_pc (g_clients cfg c) = PIdle
+               /\ c_todo (g_clients cfg c) = progs_of acts c
+               /\ In (c_view (g_clients cfg c)) (m :: hist).
+
+Lemma progs_of_op c o t c' :
+  progs_of (AOp c o :: t) c' = (if c =? c' then [o] else []) ++ progs_of t c'.
+Proof. reflexivity. Qed.
+
+Lemma last_res_snoc d o r : last_res (d ++ [(o, r)]) = r.
+Proof. unfold last_res. rewrite last_last. reflexivity. Qed.
+
+Lemma oracle_seq_model w : forall acts cfg m hist,
+  J acts cfg m hist ->
+  oracle_seq w acts (snd (run_acts w acts cfg)) m hist (g_refs (fst (run_acts w acts cfg))) = true.
+Proof.
+  induction acts as [|a t IH]; intros cfg m hist [Hm Hc].
+  - cbn. rewrite Hm. apply refs_eqb_refl.
+  - destruct a as [c|c o].
+    + (* rebase *)
+      cbn [run_acts oracle_seq]. apply IH.
+      destruct (step_char w cfg c SRebase) as [H1 H2]. unfold proj in H1.
+      destruct (Hc c) as [Hp [Ht Hv]].
+      cbn [cstep] in H1. rewrite Hp in H1.
+      pose proof (f_equal (fun t => fst (fst t)) H1) as G. pose proof (f_equal snd H1) as C.
+      cbn [fst snd] in G, C. split; [rewrite G; exact Hm|].
+      intros c'. destruct (N.eq_dec c' c) as [->|Hne].
+      * rewrite C. cbn [c_pc c_todo c_view]. rewrite ?Hp, ?Ht, ?Hm. split; [reflexivity | split; [reflexivity | left; reflexivity]].
+      * rewrite H2 by exact Hne. apply Hc.
+    + (* a call *)
+      cbn [run_acts].
+      set (cfg' := run w (call_steps c) cfg).
+      destruct (run_acts w t cfg') as [cf rs] eqn:R. cbn [fst snd oracle_seq].
+      destruct (Hc c) as [Hp [Ht Hv]].
+      destruct (g_clients cfg c) as [td p f v d] eqn:Ecl. cbn [c_pc c_todo c_view] in Hp, Ht, Hv. subst p.
+      rewrite progs_of_op, N.eqb_refl in Ht. cbn [app] in Ht. subst td.
+      destruct (run_char w c call_labels cfg) as [H1 H2].
+      change (map (fun l => (c, l)) call_labels) with (call_steps c) in H1, H2. fold cfg' in H1, H2.
+      unfold proj in H1. rewrite Ecl, Hm in H1.
+      change {| c_todo := o :: progs_of t c; c_pc := PIdle; c_first := f; c_view := v; c_done := d |}
+        with (mkc (o :: progs_of t c) PIdle f v d) in H1.
+      rewrite call_char in H1.
+      pose proof (call_fn_cases w m v o hist Hv) as Hcases.
+      destruct (call_fn w m v o) as [[[r g'] v'] ch] eqn:CF.
+      pose proof (f_equal (fun t => fst (fst t)) H1) as G. pose proof (f_equal snd H1) as C.
+      cbn [fst snd] in G, C. clear H1. rewrite C. unfold mkc. cbn [c_done]. rewrite last_res_snoc.
+      assert (Hothers : forall c', c' <> c ->
+                c_pc (g_clients cfg' c') = PIdle /\ c_todo (g_clients cfg' c') = progs_of t c'
+                /\ In (c_view (g_clients cfg' c')) (m :: hist)).
+      { intros c' Hne. rewrite H2 by exact Hne. destruct (Hc c') as [Q1 [Q2 Q3]].
+        rewrite progs_of_op in Q2. assert (E : (c =? c') = false) by (apply N.eqb_neq; congruence).
+        rewrite E in Q2. auto. }
+      specialize (IH cfg'). rewrite R in IH. cbn [fst snd] in IH.
+      destruct Hcases as [[Ht1 [Hg' Hv']] | [Ht1 [Hg' [Hv' Hex]]]]; rewrite Ht1.
+      * apply IH. split; [rewrite G; exact Hg'|].
+        intros c'. destruct (N.eq_dec c' c) as [->|Hne].
+        -- rewrite C. unfold mkc. cbn [c_pc c_todo c_view]. subst v' g'.
+           split; [reflexivity | split; [reflexivity | left; reflexivity]].
+        -- destruct (Hothers c' Hne) as [Q1 [Q2 Q3]]. split; [exact Q1 | split; [exact Q2 | right; exact Q3]].
+      * unfold seq_explained in Hex. rewrite Hex. apply IH. split; [rewrite G; exact Hg'|].
+        intros c'. destruct (N.eq_dec c' c) as [->|Hne].
+        -- rewrite C. unfold mkc. cbn [c_pc c_todo c_view].
+           split; [reflexivity | split; [reflexivity | exact Hv']].
+        -- apply Hothers. exact Hne.
+Qed.
+
+(* Excluded class: none for sequential histories (the registered finding
+   nbs-manifest-lock:identical-concurrent-update-both-succeed needs two concurrent calls).
+   Concurrent batches have no single model observation: their check IS the oracle. *)
+Theorem oracle_model_obs :
+  forall i : input, i_conc i = false -> oracle i (model_obs i) = true.
+Proof.
+  intros i Hc. unfold oracle, model_obs. rewrite Hc.
+  pose proof (oracle_seq_model (i_world i) (i_acts i) (init (i_m0 i) (progs_of (i_acts i))) (i_m0 i) []) as H.
+  destruct (run_acts (i_world i) (i_acts i) (init (i_m0 i) (progs_of (i_acts i)))) as [cfg rs].
+  cbn [o_results o_final]. apply H. split; [reflexivity|].
+  intros c. cbn. split; [reflexivity | split; [reflexivity | left; reflexivity]].
+Qed.
